@@ -13,6 +13,8 @@ CONSTANTS
   MaxSpur = 0
   Endings = {"eof", "ctxdrop", "srvdisc", "handles"}
   SeiSet = {"never"}
+  ReR = {2}
+  ReM = {0}
   RecordSched = FALSE
   Dev = {}
 VIEW view
